@@ -5,7 +5,7 @@ import os
 
 HERE = os.path.dirname(os.path.dirname(os.path.abspath(__file__)))
 
-PROOF_NOTE = ("Trusted base: pyvc (symbolic proxies + loop cutting; T1/T2 differential self-tests every run), z3 5.1 / cvc5 1.0.3, "
+PROOF_NOTE = ("Trusted base: pyvc (symbolic proxies + loop cutting; cross-checked every run by evaluating each contract natively on the real function for the solver's witness and sampled inputs), z3 5.1 / cvc5 1.0.3, "
               "spec functions and specification tables written from the property statement (T5), assumed contracts of stdlib "
               "functions listed in the evidence file. Python ints are mathematical integers (exact). Termination only where a "
               "decreases clause is given.")
